@@ -316,7 +316,7 @@ def objdump_check(cases, viol, dist):
 def run(ck, binp, seed, tier, viol):
     n, nseq = (1500, 60) if tier == "quick" else (60000, 1500)
     rc, out = sh([binp, "-mode", "enc", "-seed", str(seed), "-n", str(n), "-nseq", str(nseq)], timeout=600)
-    recs = [json.loads(l) for l in out.split("\n") if l.startswith("{")]
+    recs = jlines(out)
     cases = [r for r in recs if r.get("t") == "enc"]
     seqs = [r for r in recs if r.get("t") == "seq"]
     if rc != 0 or not cases or not seqs:
